@@ -132,4 +132,9 @@ theorem past_end_event_aborts_run :
       | cons a pre => cases pre <;> simp
     exact absurd h.symm this
 
+/-- Non-vacuity of the hypotheses of `popped_event_is_minimum`: the state above satisfies the
+invariant and its queue can be popped. -/
+example : QInv pastEndQueued ∧ ∃ e q, heappop SEvent.lt pastEndQueued.queue = some (e, q) :=
+  ⟨past_end_event_aborts_run.1, _, _, rfl⟩
+
 end ErdosVerif.C03
